@@ -330,7 +330,9 @@ type loadHooks struct {
 	outs []string
 }
 
-func (h *loadHooks) OnLoad(ctx context.Context, ds resolve.DataSourceInfo) context.Context { return ctx }
+func (h *loadHooks) OnLoad(ctx context.Context, ds resolve.DataSourceInfo) context.Context {
+	return ctx
+}
 func (h *loadHooks) OnFinished(ctx context.Context, ds resolve.DataSourceInfo, info *resolve.ResponseInfo) {
 	h.mu.Lock()
 	h.outs = append(h.outs, info.GetResponseBody())
